@@ -122,6 +122,8 @@ def same(a, b):
             if k not in b or not same(v, b[k]):
                 return False
         return True
+    if type(a).__name__ == "literal" and hasattr(a, "data"):   # dask.core.literal has no __eq__
+        return same(a.data, b.data)
     try:
         return bool(a == b)
     except Exception:  # noqa: BLE001
@@ -226,7 +228,7 @@ def tags_of(a, out=None, top=True):
     elif t == "q":
         out.add("quoted")
     elif t == "lit":
-        pass
+        _value_tags(a[1], out)
     elif t == "call" and not top:
         out.add("nested-call")
     elif t == "kwcall":
@@ -236,6 +238,22 @@ def tags_of(a, out=None, top=True):
     for c in children(a):
         tags_of(c, out, False)
     return out
+
+
+def _value_tags(v, out, depth=0):
+    if isinstance(v, tuple):
+        out.add("namedtuple" if hasattr(v, "_fields") else ("raw-tuple" if v else "empty-tuple"))
+    elif isinstance(v, list):
+        out.add("raw-list-literal" if v else "empty-list")
+    elif isinstance(v, dict):
+        out.add("raw-dict-literal" if v else "empty-dict")
+    elif isinstance(v, (set, frozenset)):
+        out.add("raw-set" if v else "empty-set")
+    else:
+        return
+    if depth < 2:
+        for x in (v.values() if isinstance(v, dict) else v):
+            _value_tags(x, out, depth + 1)
 
 
 def has_active(a):
@@ -310,26 +328,34 @@ class Prog:
         self.n = len(terms)
 
     # ---- reference: value of every node ----------------------------------------
-    def ev(self, a, val):
+    def ev(self, a, val, frozen=(), parent="top"):
+        """value of a term.  `frozen` (classification only, never the verdict): dict mechanisms
+        ('arg' / 'elsewhere', see dict_blocked) whose dicts are left unevaluated, i.e. mean their raw emission."""
         t = a[0]
         if t == "ref":
             return val[a[1]]
         if t in ("lit", "q"):
             return a[1]
         if t == "list":
-            return [self.ev(x, val) for x in a[1]]
+            return [self.ev(x, val, frozen, "list") for x in a[1]]
         if t == "tuple":
-            return tuple(self.ev(x, val) for x in a[1])
+            return tuple(self.ev(x, val, frozen, "list") for x in a[1])
         if t == "dict":
-            return {k: self.ev(x, val) for k, x in a[1]}
+            if frozen and ("arg" if parent == "callarg" else "elsewhere") in frozen:
+                return self.em(a)
+            return {k: self.ev(x, val, frozen, "list") for k, x in a[1]}
         if t == "ntuple":
-            return NTS[a[1]](*[self.ev(x, val) for x in a[2]])
+            return NTS[a[1]](*[self.ev(x, val, frozen, "list") for x in a[2]])
         if t == "set":
-            return (set if a[1] == "set" else frozenset)(self.ev(x, val) for x in a[2])
+            return (set if a[1] == "set" else frozenset)(self.ev(x, val, frozen, "list") for x in a[2])
         if t == "call":
-            return FUNCS[a[1]](*[self.ev(x, val) for x in a[2]])
+            return FUNCS[a[1]](*[self.ev(x, val, frozen, "callarg") for x in a[2]])
         if t == "kwcall":
-            return FUNCS[a[1]](*[self.ev(x, val) for x in a[2]], **{k: self.ev(x, val) for k, x in a[3]})
+            if a[4] == "rawdict" and "arg" in frozen:
+                kw = {k: self.em(x) for k, x in a[3]}
+            else:
+                kw = {k: self.ev(x, val, frozen, "list") for k, x in a[3]}
+            return FUNCS[a[1]](*[self.ev(x, val, frozen, "list") for x in a[2]], **kw)
         raise AssertionError(a)
 
     def evaluate(self):
@@ -341,50 +367,74 @@ class Prog:
     def deps(self, i):
         return refs_of(self.terms[i])
 
+    def deps_frozen(self, a, frozen, parent="top", out=None):
+        """references that remain when the dicts of the `frozen` mechanisms are not looked into"""
+        out = set() if out is None else out
+        t = a[0]
+        if t == "ref":
+            out.add(a[1])
+        elif t == "dict":
+            if ("arg" if parent == "callarg" else "elsewhere") not in frozen:
+                for _, x in a[1]:
+                    self.deps_frozen(x, frozen, "list", out)
+        elif t == "call":
+            for x in a[2]:
+                self.deps_frozen(x, frozen, "callarg", out)
+        elif t == "kwcall":
+            for x in a[2]:
+                self.deps_frozen(x, frozen, "list", out)
+            if not (a[4] == "rawdict" and "arg" in frozen):
+                for _, x in a[3]:
+                    self.deps_frozen(x, frozen, "list", out)
+        else:
+            for x in children(a):
+                self.deps_frozen(x, frozen, "list", out)
+        return out
+
     # ---- legacy emission with the raw constructs ------------------------------------
-    def legacy(self, order_seed=0):
+    def em(self, a):
         from dask.core import literal, quote
         from dask.utils import apply
 
+        em = self.em
         keys = self.keys
+        t = a[0]
+        if t == "ref":
+            k = keys[a[1]]
+            how = a[2] if len(a) > 2 else None
+            if how and how != "alias":
+                for nm, sp in eq_spellings(k):
+                    if nm == how:
+                        return sp
+            return k
+        if t == "lit":
+            return a[1]
+        if t == "q":
+            if a[2] == "quote":
+                q = quote(a[1])
+                if not (type(q) is tuple and len(q) == 1 and isinstance(q[0], literal)):
+                    raise AssertionError("quote() does not wrap %r" % (a[1],))
+                return q
+            return (literal(a[1]),)
+        if t == "list":
+            return [em(x) for x in a[1]]
+        if t == "tuple":
+            return tuple(em(x) for x in a[1])
+        if t == "dict":
+            return {k: em(x) for k, x in a[1]}
+        if t == "ntuple":
+            return NTS[a[1]](*[em(x) for x in a[2]])
+        if t == "set":
+            return (set if a[1] == "set" else frozenset)(em(x) for x in a[2])
+        if t == "call":
+            return (FUNCS[a[1]],) + tuple(em(x) for x in a[2])
+        if t == "kwcall":
+            kw = {k: em(x) for k, x in a[3]} if a[4] == "rawdict" else (dict, [[k, em(x)] for k, x in a[3]])
+            return (apply, FUNCS[a[1]], [em(x) for x in a[2]], kw)
+        raise AssertionError(a)
 
-        def em(a):
-            t = a[0]
-            if t == "ref":
-                k = keys[a[1]]
-                how = a[2] if len(a) > 2 else None
-                if how and how != "alias":
-                    for nm, sp in eq_spellings(k):
-                        if nm == how:
-                            return sp
-                return k
-            if t == "lit":
-                return a[1]
-            if t == "q":
-                if a[2] == "quote":
-                    q = quote(a[1])
-                    if not (type(q) is tuple and len(q) == 1 and isinstance(q[0], literal)):
-                        raise AssertionError("quote() does not wrap %r" % (a[1],))
-                    return q
-                return (literal(a[1]),)
-            if t == "list":
-                return [em(x) for x in a[1]]
-            if t == "tuple":
-                return tuple(em(x) for x in a[1])
-            if t == "dict":
-                return {k: em(x) for k, x in a[1]}
-            if t == "ntuple":
-                return NTS[a[1]](*[em(x) for x in a[2]])
-            if t == "set":
-                return (set if a[1] == "set" else frozenset)(em(x) for x in a[2])
-            if t == "call":
-                return (FUNCS[a[1]],) + tuple(em(x) for x in a[2])
-            if t == "kwcall":
-                kw = {k: em(x) for k, x in a[3]} if a[4] == "rawdict" else (dict, [[k, em(x)] for k, x in a[3]])
-                return (apply, FUNCS[a[1]], [em(x) for x in a[2]], kw)
-            raise AssertionError(a)
-
-        items = [(keys[i], em(a)) for i, a in enumerate(self.terms)]
+    def legacy(self, order_seed=0):
+        items = [(self.keys[i], self.em(a)) for i, a in enumerate(self.terms)]
         if order_seed:
             random.Random(order_seed).shuffle(items)
         return dict(items)
@@ -414,11 +464,11 @@ def raw_eval(dsk):
             if k in busy:
                 raise RecursionError("cycle")
             busy.add(k)
-            memo[k] = ev(dsk[k], top=k)
+            memo[k] = ev(dsk[k])
             busy.discard(k)
         return memo[k]
 
-    def ev(x, top=None):
+    def ev(x):
         if type(x) is tuple and x and callable(x[0]):
             return x[0](*[ev(a) for a in x[1:]])
         if type(x) is list:
@@ -426,7 +476,7 @@ def raw_eval(dsk):
         if type(x) is dict:
             return {k: ev(v) for k, v in x.items()}
         try:
-            if x in dsk and not (top is not None and x == top):
+            if x in dsk:
                 return value(x)
         except TypeError:
             pass
@@ -713,7 +763,7 @@ class Gen:
         if rng.random() < 0.3:
             vals.append(("lit", self.scalar()))
         dk = ["a", "b", "c", "d", ("t", 9), 77]
-        return [(dk[i], v) for i, v in enumerate(vals)]
+        return [(dk[i] if i < len(dk) else "d%d" % i, v) for i, v in enumerate(vals)]
 
     # -- nodes ----------------------------------------------------------------------------------
     def node(self, i, deps):
@@ -742,13 +792,19 @@ class Gen:
         if r < 0.38 and (self.dictactive or self.mode != "legacy"):
             return ("dict", self.dict_items(deps, 1))
         args = self.wrap(deps)
-        if rng.random() < 0.22:
+        r2 = rng.random()
+        if r2 < 0.16:
+            # keyword values taken from the arguments (references travel in the kwargs)
             nkw = rng.randint(1, min(2, len(args)))
             kws = [("kw%d" % q, args.pop()) for q in range(nkw)]
             form = "dictcall"
-            if self.mode == "legacy" and (self.dictactive or not any(has_active(v) for _, v in kws)) and rng.random() < 0.5:
+            if self.mode == "legacy" and (self.dictactive or not any(has_active(v) for _, v in kws)) and rng.random() < 0.6:
                 form = "rawdict"
             return ("kwcall", rng.choice(TAGGED + ("kwpack",)), args, kws, form)
+        if r2 < 0.26:
+            # inert keyword values in a raw dict (nothing to evaluate inside it)
+            kws = [("opt%d" % q, ("lit", self.inert_value(1))) for q in range(rng.randint(0, 2))]
+            return ("kwcall", rng.choice(TAGGED + ("kwpack",)), args, kws, "rawdict" if self.mode == "legacy" else "dictcall")
         if len(args) == 1 and rng.random() < 0.25:
             fn = rng.choice(("ident", "first"))
         else:
@@ -763,8 +819,9 @@ def random_prog(seed, n, style, mode, dictactive=False, family="random"):
     rng = random.Random(seed)
     keys = make_keys(style, n, perm_seed=rng.randrange(1, 10 ** 6))
     gen = Gen(rng, keys, mode, dictactive)
-    terms, val = [], {}
-    prog = Prog(keys, terms)
+    val = {}
+    prog = Prog(keys, [])
+    terms = prog.terms
     for i in range(n):
         if i == 0:
             deps = []
